@@ -7,6 +7,8 @@ import (
 	"errors"
 	"fmt"
 
+	"github.com/hashicorp/go-memdb"
+
 	"github.com/hashicorp/consul/agent/structs"
 	"github.com/hashicorp/consul/api"
 )
@@ -134,13 +136,23 @@ func (s *Store) txnKVS(tx WriteTxn, idx uint64, op *structs.TxnKVOp) (structs.Tx
 }
 
 // txnSession handles all Session-related operations.
-func txnSession(tx WriteTxn, idx uint64, op *structs.TxnSessionOp) error {
+func (s *Store) txnSession(tx WriteTxn, idx uint64, op *structs.TxnSessionOp) error {
 	var err error
 
 	// enumcover:api.SessionOp
 	switch op.Verb {
 	case api.SessionDelete:
-		err = sessionDeleteWithSession(tx, &op.Session, idx)
+		// Deleting a session must also release or delete the keys it holds and
+		// remove its check links and prepared queries, exactly like a session
+		// destroy. An unknown session is still reported as an error.
+		var existing interface{}
+		existing, err = tx.First(tableSessions, indexID, Query{Value: op.Session.ID, EnterpriseMeta: op.Session.EnterpriseMeta})
+		if err == nil && existing == nil {
+			err = memdb.ErrNotFound
+		}
+		if err == nil {
+			err = s.deleteSessionTxn(tx, idx, op.Session.ID, &op.Session.EnterpriseMeta)
+		}
 	default:
 		return &UnsupportedFSMApplyPanicError{fmt.Errorf("unknown session verb %q", op.Verb)}
 	}
@@ -389,7 +401,7 @@ func (s *Store) txnDispatch(tx WriteTxn, idx uint64, ops structs.TxnOps) (struct
 		case op.Check != nil:
 			ret, err = s.txnCheck(tx, idx, op.Check)
 		case op.Session != nil:
-			err = txnSession(tx, idx, op.Session)
+			err = s.txnSession(tx, idx, op.Session)
 		case op.Intention != nil:
 			// NOTE: this branch is deprecated and exists for backwards
 			// compatibility with pre-1.9.0 raft logs and during upgrades.
